@@ -20,11 +20,8 @@ def model_check(chk):
 
 def graph_paths(chk, maxcmds, limit):
     cfg = os.path.join(chk.outdir, "graph.cfg")
-    games.gen_cfg(cfg, {"ResetOnGo": "TRUE", "MaxCmds": maxcmds, "HashMinZero": "FALSE"},
+    games.gen_cfg(cfg, {"ResetOnGo": True, "MaxCmds": maxcmds, "HashMinZero": False},
                   "SPECIFICATION Spec\nINVARIANT TypeOK\nCHECK_DEADLOCK FALSE\n")
-    # gen_cfg quotes strings: booleans must be bare
-    txt = open(cfg).read().replace('"TRUE"', "TRUE").replace('"FALSE"', "FALSE")
-    open(cfg, "w").write(txt)
     dot = os.path.join(chk.outdir, "graph")
     res = vlib.tlc("Uci", cfg=cfg, workers=1, timeout=1200, xmx="4g", dfs=False, extra=["-dump", "dot,actionlabels", dot])
     if res.error:
